@@ -2,7 +2,7 @@
    PARTIAL: these theorems are about the protocol (who may take a step); that tokio/std deliver the
    wake-up and schedule the woken thread in finite time is outside the model. *)
 From Coq Require Import List Arith ZArith.
-From LK Require Import AList Model Observe Inv StepInv PropLemmas.
+From LK Require Import AList Model Observe Inv StepInv PropLemmas DropInv.
 Import ListNotations.
 
 (* Every in-flight call that is not waiting for a per-key mutex (and is not running user code) can take
@@ -14,6 +14,24 @@ Theorem C03_only_key_waits_block : forall c s a p o,
   (pc_needs_oracle p = true -> oracle_ok c s o) ->
   exists s' ob, step c s (LResume a o) = ROk s' ob.
 Proof. intros c s a p o H. exact (resume_enabled c s a p o (reachable_inv c s H)). Qed.
+
+(* ... and so can a guard drop in progress: the guard it is dropping is still in the guard table (DropInv.v),
+   so its unlock critical section is enabled; "a waiter acquires the key once the guard it waits for has
+   been dropped" then follows with C03_release_hands_over and C03_handed_waiter_runs. *)
+Theorem C03_drop_always_completes : forall c s a g rest af o,
+  reachable c s -> aget a (s_ops s) = Some (PDrops (g :: rest) af) ->
+  exists s' ob, step c s (LResume a o) = ROk s' ob.
+Proof.
+  intros c s a g rest af o H. exact (drop_enabled c s a g rest af o (reachable_inv c s H) (reachable_dinv c s H)).
+Qed.
+
+Theorem C03_stream_drops_valueless_guard : forall c s a subs k g o,
+  reachable c s -> aget a (s_ops s) = Some (PStream subs) -> aget k subs = Some (SUnlocking g) ->
+  aget k (s_ents s) <> None ->
+  exists s' ob, step c s (LSub a k o) = ROk s' ob.
+Proof.
+  intros c s a subs k g o H. exact (stream_unlock_enabled c s a subs k g o (reachable_inv c s H) (reachable_dinv c s H)).
+Qed.
 
 (* A key that nobody holds or waits for is acquired at once: an absent key in the look-up itself, ... *)
 Theorem C03_absent_key_no_wait : forall c s a sh k s' ob,
